@@ -195,6 +195,7 @@ func Register() {
 	rig.Register(&rig.Spec{Prop: "C29", Level: "exploration", Stages: []rig.Stage{
 		{Name: "merge", Fn: c29},
 		{Name: "schema", Fn: c29schema},
+		{Name: "large", Fn: c29large},
 	}})
 	rig.Register(&rig.Spec{Prop: "C30", Level: "exploration", Stages: []rig.Stage{{Name: "twins", Fn: c30}}})
 	rig.Register(&rig.Spec{Prop: "C43", Level: "exploration", Stages: []rig.Stage{{Name: "resolve", Fn: c43}}})
